@@ -275,7 +275,7 @@ func VerifC15_Object() {
 
 // an incompatibility of an element/key/value/property type propagates to the container verdict
 func VerifC15_Propagate() {
-	where := nondetChoice("where", 5)
+	where := nondetChoice("where", 6)
 	sMin, sMax, oMin, oMax := verifFourInt64()
 	a, b := Type(NewIntSchema(sMin, sMax, nil)), Type(NewIntSchema(oMin, oMax, nil))
 	disjoint := specDisjointInt(sMin, sMax, oMin, oMax)
@@ -284,6 +284,14 @@ func VerifC15_Propagate() {
 	verifAssume(vOr(vAnd(oMin != nil, oMax != nil), vAnd(oMin == nil, oMax == nil)))
 	var c, p Type
 	switch where {
+	case 5: // behind references: two distinct scopes whose non-root objects share an id
+		mk := func(leaf Type) Type {
+			return NewScopeSchema(
+				NewObjectSchema("Root", map[string]*PropertySchema{"b": NewPropertySchema(NewRefSchema("B", nil), nil, true, nil, nil, nil, nil, nil)}),
+				NewObjectSchema("B", map[string]*PropertySchema{"f": NewPropertySchema(leaf, nil, true, nil, nil, nil, nil, nil)}),
+			)
+		}
+		c, p = mk(a), mk(b)
 	case 0:
 		c, p = NewListSchema(a, nil, nil), NewListSchema(b, nil, nil)
 	case 1:
